@@ -1046,6 +1046,13 @@ func genC08(tier string, rng *xvlib.Rng, run func(string, bool)) {
 	for i := 0; i < 3; i++ {
 		run(fmt.Sprintf("conc %d %d %d", rng.Intn(1<<30), 12, map[bool]int{false: 150, true: 2000}[thorough]), true)
 	}
+	for i := 0; i < 3; i++ {
+		// the same without barriers: several goroutines per core, each walking all objects, forced preemption (conc.go)
+		it := map[bool]int{false: 60, true: 600}[thorough]
+		for _, cfg := range []string{"12 %d w=64 big=4096 gc=1", "12 %d w=128 big=0 gc=1 ver=12", "16 %d w=48 big=20000 gc=0 ver=12", "12 %d w=32 big=0 gc=0 ver=21"} {
+			run(fmt.Sprintf("conc %d "+cfg, rng.Intn(1<<30), it), true)
+		}
+	}
 	// 1. leaf padding: every n up to 1024 (4096 thorough) and the neighbourhood of every power of two up to 2^12
 	maxLeaf := 1024
 	if thorough {
